@@ -9,16 +9,39 @@ REGEX = ['a', '^a', 'b$', '^ab$', '', 'ab', '^b']
 
 
 class FilterGen(object):
-    def __init__(self, g, malformed=0.04, elem=True, regex=True):
+    def __init__(self, g, malformed=0.04, elem=True, regex=True, emptykeys=0.0):
+        """emptykeys: rate of keys with an empty component ('', 'a.', '.', 'a..b', '.a'); 0 draws
+        nothing, so the streams of the harnesses that do not ask for them are unchanged"""
         self.g = g
         self.r = g.r
         self.malformed = malformed
         self.elem = elem
         self.regex = regex
+        self.emptykeys = emptykeys
         self.ops_used = {}
 
     def _note(self, op):
         self.ops_used[op] = self.ops_used.get(op, 0) + 1
+
+    def key(self, doc):
+        """the key of a condition; every dot-separated component, the empty one included, is a
+        field name"""
+        k = self.g.path(doc)
+        if self.emptykeys and self.r.random() < self.emptykeys:
+            x = self.r.choice(['empty', 'tail', 'dot', 'mid', 'head'])
+            self._note('emptykey:' + x)
+            comps = k.split('.')
+            if x == 'empty':
+                return ''
+            if x == 'tail':
+                return k + '.'
+            if x == 'dot':
+                return '.'
+            if x == 'head':
+                return '.' + k
+            i = self.r.randrange(1, len(comps) + 1)
+            return '.'.join(comps[:i] + [''] + (comps[i:] or [self.r.choice(FIELDS)]))
+        return k
 
     def filter(self, doc=None, depth=2, top=True):
         n = self.r.choice([1, 1, 1, 2, 2, 3]) if top else self.r.choice([1, 1, 2])
@@ -33,7 +56,7 @@ class FilterGen(object):
             elif x < 0.15 and top:
                 f['$comment'] = 'c'
             else:
-                f[self.g.path(doc)] = self.condition(doc, depth)
+                f[self.key(doc)] = self.condition(doc, depth)
         if self.r.random() < self.malformed:
             self.break_filter(f)
         return f
